@@ -1226,7 +1226,11 @@ package larking
 //@   requires s != nil && s.method != nil && AllSingular(s.method.body) && impl(m, "proto.Message")
 //@   assert atcall `protojson.Unmarshal(` [websocket-receive-limit C08] len(arg0) <= s.maxRecv
 //@   assert at "return err" [a-normal-closure-is-the-end-of-the-stream-not-an-error C06] !NormalClosure(err)
+//@   assert at "return io.EOF" [end-of-stream-only-after-a-normal-closure C06] NormalClosure(err)
+//@   assert at "return err" [a-failed-read-is-never-a-clean-end C06] err != io.EOF
 //@   witness verifWitnessWSEndOfStream for a-normal-closure
+//@   witness verifWitnessWSEndOfStream for a-failed-read
+//@   witness verifWitnessWSEndOfStream for end-of-stream-only
 //@   witness verifWitnessWSLimit for websocket-receive-limit
 //@   loop 1 invariant -1 <= rangeindex && rangeindex < len(s.method.body) && AllSingular(s.method.body) && cur != nil
 //@ func AsHTTPBodyWriter serves C09 C16 partial pre[protoreflect inv.init inv.keep index
